@@ -14,6 +14,7 @@ import mirq
 from mirq import show, access_path, AnchorMissing, const_of, walk
 from rulekit import Table
 from rules import common as C
+from rules import vocab as V
 from rules import C07
 
 TABLE = Table('C06')
@@ -299,7 +300,8 @@ def r3(cx, rec):
             rec.need(ok, 'position/const-%d-unguarded' % v, P, sp,
                      'the cursor is positioned at %d without a dominating check that %d bytes are buffered' % (v, v))
             continue
-        if arg[0] == 'try' and arg[1][0] == 'call' and arg[1][1] in F.fns:
+        if mirq.peel_ok(arg) is not arg and mirq.peel_ok(arg)[0] == 'call' and mirq.peel_ok(arg)[1] in F.fns:
+            arg = ('try', mirq.peel_ok(arg))
             chk = F.fn(arg[1][1])
             name = arg[1][1].split('::')[-2]
             oks = mirq.agg_sites(chk, r'^std::result::Result$', 'Ok')
@@ -527,6 +529,18 @@ def r6(cx, rec):
             if e2[0] == 'binop' and e2[1] == 'Eq' and const_of(e2[3]) and const_of(e2[3])[0] == 0 and nb in R.only_via_edge((s2, tt)):
                 g2 = True
         rec.site(R, nb, 'Ok(None) only when n == 0 (%s) and buffer empty (%s)' % (g2, g1))
+    # a read of 0 bytes always ends the call (Ok(None) or Err): it never goes back to parsing / reading
+    for s2 in R.switches():
+        e2, ts2, o2 = R.cond(s2)
+        be = R.bool_edges(s2)
+        if be and e2[0] == 'binop' and e2[1] in ('Eq', 'Ne') and const_of(e2[3]) and const_of(e2[3])[0] == 0 and \
+                any(y[0] == 'call' and y[3] == rb for y in walk(e2[2], inl=False)):
+            eof_edge = be[0] if e2[1] == 'Eq' else be[1]
+            again = rb in R.reach_from(eof_edge)
+            rec.site(R, s2, 'read returned 0: the reader returns on every path: %s' % (not again))
+            rec.need(not again, 'eof-loops', R, s2,
+                     'after a read of 0 bytes (peer closed) the reader can go back to reading: with bytes of an incomplete frame buffered it '
+                     'spins forever instead of ending the connection with an error')
         rec.need(g1 and g2, 'clean-eof-condition', R, nb, 'Ok(None) is returned without `read returned 0` and `buffer is empty`')
     # the dispatcher treats None as an error
     D, sbs = C.frame_dispatch(F)
